@@ -765,6 +765,8 @@ func instrumentConcurrency(file *ast.File, info *types.Info, fset *token.FileSet
 			if _, isChan := t.Underlying().(*types.Chan); !isChan {
 				return true
 			}
+			selN++
+			chv := ast.NewIdent(fmt.Sprintf("verifCh%d", selN)) // the ranged expression is evaluated once
 			vv, okv := ast.NewIdent("verifV"), ast.NewIdent("verifOK")
 			lhsV := ast.Expr(vv)
 			keyUsed := n.Key != nil && !isBlank(n.Key)
@@ -772,7 +774,7 @@ func instrumentConcurrency(file *ast.File, info *types.Info, fset *token.FileSet
 				lhsV = ast.NewIdent("_")
 			}
 			body := []ast.Stmt{
-				&ast.AssignStmt{Lhs: []ast.Expr{lhsV, okv}, Tok: token.DEFINE, Rhs: []ast.Expr{&ast.CallExpr{Fun: simSel("Recv2"), Args: []ast.Expr{n.X}}}},
+				&ast.AssignStmt{Lhs: []ast.Expr{lhsV, okv}, Tok: token.DEFINE, Rhs: []ast.Expr{&ast.CallExpr{Fun: simSel("Recv2"), Args: []ast.Expr{chv}}}},
 				&ast.IfStmt{Cond: &ast.UnaryExpr{Op: token.NOT, X: okv}, Body: &ast.BlockStmt{List: []ast.Stmt{&ast.BranchStmt{Tok: token.BREAK}}}},
 			}
 			if keyUsed {
@@ -786,7 +788,10 @@ func instrumentConcurrency(file *ast.File, info *types.Info, fset *token.FileSet
 				}
 			}
 			body = append(body, n.Body.List...)
-			c.Replace(&ast.ForStmt{Body: &ast.BlockStmt{List: body}})
+			c.Replace(&ast.ForStmt{
+				Init: &ast.AssignStmt{Lhs: []ast.Expr{chv}, Tok: token.DEFINE, Rhs: []ast.Expr{n.X}},
+				Body: &ast.BlockStmt{List: body},
+			})
 			rep.Rewrites["range over channel"]++
 			used = true
 		case *ast.SelectStmt:
